@@ -2,6 +2,11 @@
 
 package actor
 
+import (
+	"context"
+	"time"
+)
+
 // C15 hooks: a bare target PID (real mailbox, real state flags, no actor system, no dispatcher) so that the
 // verification harness can run the REAL PID.Ask on caller threads and play the target's worker itself
 // (real UnboundedMailbox.Dequeue, which recycles the previous sentinel into contextCh, then the real
@@ -13,7 +18,14 @@ func VerifC15Target() *PID {
 	pid := &PID{mailbox: NewUnboundedMailbox(), systemMailbox: NewUnboundedMailbox()}
 	pid.setState(runningState, true)
 	pid.schedState.v.Store(dispatchScheduled)
+	// a zero actor system with a NoSender is all that actor.Ask and handleRemoteAsk read
+	pid.actorSystem = &actorSystem{noSender: VerifC15Caller()}
 	return pid
+}
+
+// VerifC15SystemAsk runs actorSystem.handleRemoteAsk's local Ask (actor_system.go) of the target's system.
+func VerifC15SystemAsk(ctx context.Context, to *PID, message any, timeout time.Duration) (any, error) {
+	return to.actorSystem.(*actorSystem).handleRemoteAsk(ctx, to, message, timeout)
 }
 
 // VerifC15Caller returns a bare PID used as the receiver of PID.Ask.
